@@ -32,19 +32,59 @@ type Program struct {
 	ssaPkgs map[*types.Package]*ssa.Package
 
 	funcDecls map[*types.Func]*FuncInfo
+	varFuncs  map[*types.Var]*FuncInfo
 	AllFuncs  []*FuncInfo // every function/method declared in non-test files of module packages
 }
 
 // FuncInfo ties a declared function to its syntax.
 type FuncInfo struct {
-	Obj  *types.Func
-	Decl *ast.FuncDecl
+	Obj  *types.Func   // nil for package-level function-literal variables
+	Decl *ast.FuncDecl // nil for package-level function-literal variables
 	Pkg  *packages.Package
 	File *ast.File
+
+	// package-level `var f = func(...) {...}` (e.g. ircserver.authOper)
+	Var *types.Var
+	Lit *ast.FuncLit
 }
 
 // Name returns a stable, line-free name: "ircserver.(*IRCServer).cmdTopic".
-func (f *FuncInfo) Name() string { return FuncName(f.Obj) }
+func (f *FuncInfo) Name() string {
+	if f.Obj == nil && f.Var != nil {
+		return ShortPkg(f.Var.Pkg().Path()) + "." + f.Var.Name()
+	}
+	return FuncName(f.Obj)
+}
+
+// Body returns the function body (nil for declarations without body).
+func (f *FuncInfo) Body() *ast.BlockStmt {
+	if f.Decl != nil {
+		return f.Decl.Body
+	}
+	if f.Lit != nil {
+		return f.Lit.Body
+	}
+	return nil
+}
+
+// Node returns the declaring syntax node (*ast.FuncDecl or *ast.FuncLit).
+func (f *FuncInfo) Node() ast.Node {
+	if f.Decl != nil {
+		return f.Decl
+	}
+	return f.Lit
+}
+
+// Type returns the function's signature syntax.
+func (f *FuncInfo) FuncType() *ast.FuncType {
+	if f.Decl != nil {
+		return f.Decl.Type
+	}
+	return f.Lit.Type
+}
+
+// Info returns the type information of the declaring package.
+func (f *FuncInfo) Info() *types.Info { return f.Pkg.TypesInfo }
 
 // FuncName renders a *types.Func as pkgshort.(*Recv).Name or pkgshort.Name.
 func FuncName(fn *types.Func) string {
@@ -107,6 +147,7 @@ func Load(dir string, overlay map[string][]byte) (*Program, error) {
 		All:       map[string]*packages.Package{},
 		ByRel:     map[string]*packages.Package{},
 		funcDecls: map[*types.Func]*FuncInfo{},
+		varFuncs:  map[*types.Var]*FuncInfo{},
 	}
 	var errs []string
 	packages.Visit(pkgs, nil, func(pkg *packages.Package) {
@@ -139,6 +180,27 @@ func Load(dir string, overlay map[string][]byte) (*Program, error) {
 	for _, pkg := range p.Pkgs {
 		for _, f := range pkg.Syntax {
 			for _, d := range f.Decls {
+				if gd, ok := d.(*ast.GenDecl); ok && gd.Tok == token.VAR {
+					for _, sp := range gd.Specs {
+						vs, ok := sp.(*ast.ValueSpec)
+						if !ok || len(vs.Names) != len(vs.Values) {
+							continue
+						}
+						for i, name := range vs.Names {
+							lit, ok := vs.Values[i].(*ast.FuncLit)
+							if !ok {
+								continue
+							}
+							v, _ := pkg.TypesInfo.Defs[name].(*types.Var)
+							if v == nil {
+								continue
+							}
+							fi := &FuncInfo{Var: v, Lit: lit, Pkg: pkg, File: f}
+							p.varFuncs[v] = fi
+							p.AllFuncs = append(p.AllFuncs, fi)
+						}
+					}
+				}
 				fd, ok := d.(*ast.FuncDecl)
 				if !ok {
 					continue
@@ -167,6 +229,9 @@ func (p *Program) FuncOf(obj *types.Func) *FuncInfo {
 	}
 	return p.funcDecls[obj.Origin()]
 }
+
+// VarFunc returns the function literal bound to a package-level variable, if any.
+func (p *Program) VarFunc(v *types.Var) *FuncInfo { return p.varFuncs[v] }
 
 // Func looks up "pkgshort.Name" or "pkgshort.(*T).Name" / "pkgshort.(T).Name" / "pkgshort.T.Name".
 func (p *Program) Func(name string) *FuncInfo {
@@ -257,6 +322,9 @@ func (p *Program) SSA() *ssa.Program {
 
 // SSAFunc returns the SSA function for a declared function.
 func (p *Program) SSAFunc(obj *types.Func) *ssa.Function {
+	if obj == nil {
+		return nil
+	}
 	return p.SSA().FuncValue(obj)
 }
 
